@@ -527,7 +527,12 @@ class Gen:
             return f"Range(0, {self.r.choice([0, 1, 3])}).Select(lambda {v}: {v}*{self.r.choice(['2', '1.5'])})", "d"
         s = self.objseq(e, scope, d)
         v = self.q.var("s")
-        body, kind = self.scalar(e, scope + [v], d - 1, obj=v)
+        if self.r.random() < 0.08:
+            # a sequence of literals (one per element): Select(lambda s: 1) - the body mentions no variable at all
+            body, kind = self.const()
+            self.q.feat.add("literal_body")
+        else:
+            body, kind = self.scalar(e, scope + [v], d - 1, obj=v)
         self.q.ops += 1
         return f"{s}.Select(lambda {v}: {body})", kind
 
